@@ -149,7 +149,24 @@ func (av arrayValue) IndexValue(iv Value) Value {
 	case float64:
 		n = int(ix)
 	default:
-		return nilValue
+		// integers of the other widths index like int
+		rv := reflect.ValueOf(ix)
+		switch {
+		case !rv.IsValid():
+			return nilValue
+		case isUintKind(rv.Kind()):
+			if rv.Uint() > uint64(ar.Len()) {
+				return nilValue
+			}
+			n = int(rv.Uint())
+		case isIntKind(rv.Kind()):
+			if rv.Int() > int64(ar.Len()) || rv.Int() < -int64(ar.Len()) {
+				return nilValue
+			}
+			n = int(rv.Int())
+		default:
+			return nilValue
+		}
 	}
 	if n < 0 {
 		n += ar.Len()
